@@ -21,20 +21,23 @@ def check(idx: Index, rep: Report, tier: str) -> str:
 
     # ---- R1 scratch provenance
     r = rep.rule("C20.R1", "every register added to the scratch pool derives from the operation's designated free registers", floor=2)
-    apps = [c for c in calls_in(f.node) if call_attr(c) == "append" and isinstance(c.func, ast.Attribute) and unparse(c.func.value).startswith("free_registers[")]
+    apps = [c for c in calls_in(f.node) if call_attr(c) in ("append", "insert", "appendleft", "add") and isinstance(c.func, ast.Attribute) and unparse(c.func.value).startswith("free_registers[") and c.args]
     if len(apps) < 1:
         raise AnalysisError(f"{f.fq}: scratch pool appends not found")
     for c in apps:
-        a = c.args[0]
+        a = c.args[-1] if call_attr(c) == "insert" else c.args[0]
+        front = call_attr(c) == "appendleft" or (call_attr(c) == "insert" and unparse(c.args[0]) == "0")
         ok = False
         if isinstance(a, ast.Name):
             defs = reaching_defs(cfg, a.id, cfg.node_of(c))
             ok = bool(defs) and all(cfg.nodes[nid].kind == "for" and unparse(cfg.nodes[nid].ast.iter) == "op.free_registers" for nid, v in defs)  # type: ignore[union-attr]
-        inst = f"{f.fq}:append({unparse(a)})"
+        inst = f"{f.fq}:append({unparse(a)})"  # instance name kept for append / insert alike
         if ok:
             r.ok(inst, f"{PM}:{c.lineno} from op.free_registers")
         else:
             src = resolved_text(cfg, a, cfg.node_of(c))
+            if front:
+                r.fail(inst + ":front", Finding("C20.R1", f.fq, f"scratch-preferred-over-designated:{unparse(a)}", f"`{unparse(c)}` puts `{src}` - a register that is only read by the parallel move - in FRONT of the designated free registers: it is chosen as scratch even when the operation names a free register, and the value living in it is clobbered", f"{PM}:{c.lineno}"))
             r.fail(inst, Finding("C20.R1", f.fq, f"scratch-not-designated:{unparse(a)}", f"`{unparse(c)}` adds `{src}` - a register reached at the top of a move chain, i.e. one that is only read by the parallel move - to the scratch pool; it is later overwritten to break a cycle although it is not a destination nor a designated free register (the value living in it is clobbered)", f"{PM}:{c.lineno}"))
 
     # ---- R2 xor swap template
